@@ -119,6 +119,10 @@ func runParity(c *core.Ctx) []core.Obligation {
 					k, isK := core.ConstInt(p.Y)
 					if p.Op != token.EQL || !isK || k != crossK {
 						okUpd, why = false, "the accumulator is toggled by a comparison other than sign == Cross"
+					} else if call, isCall := p.X.(*ssa.Call); isCall {
+						if f := core.StaticCallee(call); f != nil && (f.Name() == "CrossingSign" || f.Name() == "ChainCrossingSign") {
+							okUpd, why = false, "the accumulator is toggled by "+f.Name()+"(...) == Cross directly: MaybeCross (the test segment shares a vertex with the edge) is counted as no crossing instead of being resolved by VertexCrossing, so the parity flips when an edge endpoint lies on the reference segment's endpoint"
+						}
 					}
 				default:
 					okUpd, why = false, fmt.Sprintf("the accumulator is toggled by an unexpected value (%T)", pred)
@@ -182,44 +186,25 @@ func runParity(c *core.Ctx) []core.Obligation {
 		}
 		// chain evaluators: RestartAt under `ai != aiPrev+1`
 		if ev.chain {
-			ok := false
-			core.AllInstrs(fn, func(in ssa.Instruction) {
-				ci, isCall := in.(ssa.CallInstruction)
-				if !isCall {
-					return
-				}
-				if f := core.StaticCallee(ci); f == nil || f.Name() != "RestartAt" {
-					return
-				}
-				for _, b := range fn.Blocks {
-					iff, isIf := b.Instrs[len(b.Instrs)-1].(*ssa.If)
-					if !isIf {
-						continue
-					}
-					bo, isBo := iff.Cond.(*ssa.BinOp)
-					if !isBo || bo.Op != token.NEQ {
-						continue
-					}
-					// one side is prev+1
-					plus1 := func(v ssa.Value) bool {
-						a, isA := v.(*ssa.BinOp)
-						if !isA || a.Op != token.ADD {
-							return false
-						}
-						k, isK := core.ConstInt(a.Y)
-						return isK && k == 1
-					}
-					if (plus1(bo.X) || plus1(bo.Y)) && core.EdgeDominates(core.Edge{From: b, Idx: 0}, in.Block()) {
-						ok = true
-					}
-				}
-			})
+			ok := restartGuarded(fn)
 			if ok {
 				obs = append(obs, core.Ob("R-PARITY", name+":restart", site, fname, core.Discharged, "the crosser is restarted exactly when the next edge id is not previous+1"))
 			} else {
 				obs = append(obs, core.Ob("R-PARITY", name+":restart", site, fname, core.Violated, "RestartAt is not guarded by `edge != previous+1`: a gap in the clipped edge list would be bridged by a phantom edge"))
 			}
 		}
+	}
+	// the same chain discipline in the loop-relation crosser (C07): edgeCrossesCell walks the clipped edges of a cell
+	// with ChainCrossingSign and must restart whenever the next edge id is not the previous one plus one
+	if fn := c.Fn("s2", "loopCrosser", "edgeCrossesCell"); fn != nil {
+		if restartGuarded(fn) {
+			obs = append(obs, core.Ob("R-PARITY", "loopCrosser.edgeCrossesCell:restart", c.Pos(fn.Pos()), core.FuncName(fn), core.Discharged, "the crosser is restarted exactly when the next edge id is not previous+1"))
+		} else {
+			obs = append(obs, core.Ob("R-PARITY", "loopCrosser.edgeCrossesCell:restart", c.Pos(fn.Pos()), core.FuncName(fn), core.Violated,
+				"RestartAt is not guarded by `edge != previous+1`: when the edge ids of successive cells are not ascending the chain continues from the wrong vertex and a chord between two unrelated vertices is tested instead of the loop's edge"))
+		}
+	} else {
+		obs = append(obs, core.Ob("R-PARITY", "loopCrosser.edgeCrossesCell:restart", "-", "", core.Violated, "unresolved anchor"))
 	}
 	// brute force loop visits every edge including the closing one: induction from 1 with <= len, or from 0 with < len
 	if fn := c.Fn("s2", "Loop", "bruteForceContainsPoint"); fn != nil {
@@ -344,6 +329,49 @@ func runParity(c *core.Ctx) []core.Obligation {
 			obs = append(obs, core.Ob("R-PARITY", "ContainsPointQuery.shapeContains:vertex-shortcut", c.Pos(fn.Pos()), core.FuncName(fn), core.Violated, why))
 		}
 	}
+	obs = append(obs, vertexModelSites(c)...)
+	return obs
+}
+
+// vertexModelSites: wherever the library itself answers "is this point inside" through a ContainsPointQuery (the
+// indexed path of Polygon.ContainsPoint, the containing-shapes visitors of the distance targets, ShapeIndexRegion)
+// it uses the semi-open vertex model, the one the brute-force paths and Loop.ContainsPoint implement: with any
+// other model the indexed and the brute-force answer differ at a vertex.
+func vertexModelSites(c *core.Ctx) []core.Obligation {
+	var obs []core.Obligation
+	semi, okK := constOf(c, "VertexModelSemiOpen")
+	ctor := c.Fn("s2", "", "NewContainsPointQuery")
+	if !okK || ctor == nil {
+		return append(obs, core.Ob("R-PARITY", "vertex-model:anchor", "-", "", core.Violated, "unresolved anchor: NewContainsPointQuery / VertexModelSemiOpen"))
+	}
+	total := 0
+	for _, fn := range c.GeoFuncs() {
+		n := 0
+		core.AllInstrs(fn, func(in ssa.Instruction) {
+			ci, ok := in.(ssa.CallInstruction)
+			if !ok || core.StaticCallee(ci) != ctor || len(ci.Common().Args) != 2 {
+				return
+			}
+			n++
+			total++
+			construct := fmt.Sprintf("vertex-model:%s#%d", core.FuncName(fn), n)
+			k, isK := core.ConstInt(ci.Common().Args[1])
+			switch {
+			case !isK:
+				o := core.Ob("R-PARITY", construct, c.Pos(in.Pos()), core.FuncName(fn), core.Discharged, "the model is chosen by the caller")
+				o.Trivial = true
+				obs = append(obs, o)
+			case k == semi:
+				obs = append(obs, core.Ob("R-PARITY", construct, c.Pos(in.Pos()), core.FuncName(fn), core.Discharged, "semi-open vertex model, as in the brute-force evaluators"))
+			default:
+				obs = append(obs, core.Ob("R-PARITY", construct, c.Pos(in.Pos()), core.FuncName(fn), core.Violated,
+					"this internal containment test does not use VertexModelSemiOpen: at a point equal to a vertex the indexed answer differs from the brute-force evaluators and from Loop.ContainsPoint (a vertex is contained by neither a polygon nor its complement, or by both)"))
+			}
+		})
+	}
+	if total < 4 {
+		obs = append(obs, core.Ob("R-PARITY", "vertex-model:anchor", "-", "", core.Violated, fmt.Sprintf("only %d internal ContainsPointQuery constructions found, 4 expected", total)))
+	}
 	return obs
 }
 
@@ -446,4 +474,44 @@ func runInitOrder(c *core.Ctx) []core.Obligation {
 		}
 	}
 	return obs
+}
+
+// restartGuarded: some RestartAt call of fn sits on the true edge of a branch `x != y+1`.
+func restartGuarded(fn *ssa.Function) bool {
+	ok := false
+	core.AllInstrs(fn, func(in ssa.Instruction) {
+		ci, isCall := in.(ssa.CallInstruction)
+		if !isCall {
+			return
+		}
+		if f := core.StaticCallee(ci); f == nil || f.Name() != "RestartAt" {
+			return
+		}
+		for _, b := range fn.Blocks {
+			iff, isIf := b.Instrs[len(b.Instrs)-1].(*ssa.If)
+			if !isIf {
+				continue
+			}
+			bo, isBo := iff.Cond.(*ssa.BinOp)
+			if !isBo || (bo.Op != token.NEQ && bo.Op != token.EQL) {
+				continue
+			}
+			edgeIdx := 0 // x != y+1: restart on the true edge; x == y+1: on the false edge
+			if bo.Op == token.EQL {
+				edgeIdx = 1
+			}
+			plus1 := func(v ssa.Value) bool {
+				a, isA := v.(*ssa.BinOp)
+				if !isA || a.Op != token.ADD {
+					return false
+				}
+				k, isK := core.ConstInt(a.Y)
+				return isK && k == 1
+			}
+			if (plus1(bo.X) || plus1(bo.Y)) && core.EdgeDominates(core.Edge{From: b, Idx: edgeIdx}, in.Block()) {
+				ok = true
+			}
+		}
+	})
+	return ok
 }
